@@ -177,6 +177,7 @@ func runOne(t *testing.T, prop, tier string, seed uint64, sim Sim, c interface{}
 			wt.VerifFlock = nil
 			wt.VerifSpawn = nil
 			wt.VerifHeld = nil
+			wt.VerifFsync = nil
 			wt.Now = time.Now
 			// runtime.NumCPU() as the tree under test sees it: a knob of the run
 			ncpu := []int{1, 2, 2, 3, 4, 8, 16, 64}[RunSeed(seed, "ncpu", 0)%8]
